@@ -27,7 +27,7 @@ def main():
         print('--- witness finder: request catalogue against real servers on loopback (replay crate) ---')
         p = subprocess.run(['cargo', 'run', '--offline', '-q', '--release', '--bin', 'listener', '--', r['property']], cwd=wf, env=dict(os.environ, CARGO_NET_OFFLINE='true'))
         sys.exit(1 if p.returncode == 1 else 0)
-    if r['property'] in ('C01', 'C02', 'C04', 'C07', 'C08', 'C15', 'C16', 'C18'):
+    if r['property'] in ('C01', 'C02', 'C04', 'C07', 'C08', 'C13', 'C15', 'C16', 'C18'):
         print('--- witness finder: scripted-peer scenarios against the real Worker (replay crate) ---')
         p = subprocess.run(['cargo', 'run', '--offline', '-q', '--release', '--bin', 'scenarios', '--', r['property']], cwd=wf,
                            env=dict(os.environ, CARGO_NET_OFFLINE='true'))
